@@ -47,6 +47,8 @@ type opInfo struct {
 	Compare   bool // v_cmp*: inactive lanes' result bits are 0 (GCN3 ISA manual 3.9)
 	ReadsVCC  bool
 	WritesVCC bool
+	HasSDst   bool // the encoding names a lane-mask destination (VOP3b; VOP3a compare)
+	Facts     lib.OpFacts
 	Cases     []*caseT
 	Skipped   []string
 }
@@ -58,6 +60,10 @@ type caseT struct {
 	Inst  *insts.Inst
 	Shape lib.Shape
 	Kind  int // 0 plain, 1 LDS, 2 memory
+	Roles lib.Roles
+	// AliasPanic: an operand-aliasing variant whose handler faults on the canonical state although the
+	// non-aliased form runs: kept (and reported by the oracles) instead of being skipped
+	AliasPanic string
 }
 
 func (c *caseT) label() string {
@@ -221,7 +227,7 @@ func (d *discovery) skip(reason, example string) {
 // discoverOp probes one opcode value of one format for one ALU.
 func (d *discovery) discoverOp(ctx *wctx, a lib.Arch, f lib.Format, op int) *opInfo {
 	key := fmt.Sprintf("%s/%s", a, f)
-	vars := lib.Variants(f)
+	vars := lib.AllVariants(f)
 	b := lib.Encode(f, op, vars[0], false)
 	inst, msg := decode(a, b)
 	if inst == nil {
@@ -244,10 +250,20 @@ func (d *discovery) discoverOp(ctx *wctx, a lib.Arch, f lib.Format, op int) *opI
 	noData0 := (f == lib.DS && inst.Data == nil) || (f == lib.FLAT && strings.Contains(o.Name, "load"))
 	noData1 := f == lib.DS && inst.Data1 == nil
 	noDst := (f == lib.DS && inst.Dst == nil) || (f == lib.FLAT && strings.Contains(o.Name, "store"))
+	o.HasSDst = f == lib.VOP3 && (o.IsVOP3b || op < 256)
+	o.Facts = facts(f, inst, o)
 	st := ctx.st[kindOf(f)]
 	mach := ctx.m[a]
+	seen := map[string]bool{}
 	for vi, va := range vars {
 		va := va
+		if va.Applies != nil && !va.Applies(&o.Facts) {
+			continue // not a legal / not a distinct encoding for this opcode
+		}
+		if ok, why := va.Legal(&o.Facts); !ok {
+			d.skip("aliasing variant not encodable: "+why, fmt.Sprintf("%s %s [%s]", key, o.Name, va.Name))
+			continue
+		}
 		if f == lib.VOP3 {
 			if o.MaskOp {
 				if !va.Src2Mask {
@@ -268,6 +284,9 @@ func (d *discovery) discoverOp(ctx *wctx, a lib.Arch, f lib.Format, op int) *opI
 			d.skip("variant does not decode: "+short(msg), ex)
 			continue
 		}
+		if seen[string(bytesV)] {
+			continue // the opcode ignores the field that distinguishes this variant: same encoding as an earlier one
+		}
 		if vi > 0 && f == lib.VOP3 {
 			if (va.Src2 != vars[0].Src2 && !o.MaskOp && noSrc2) || (va.Src1 != vars[0].Src1 && noSrc1) {
 				continue // the decoder ignores that field for this opcode: identical to the canonical form
@@ -276,6 +295,7 @@ func (d *discovery) discoverOp(ctx *wctx, a lib.Arch, f lib.Format, op int) *opI
 		c := &caseT{Op: o, Var: va, Bytes: bytesV, Inst: in, Kind: kindOf(f)}
 		c.Shape = lib.Shape{Format: f, Variant: va, W: widths(f, in)}
 		c.Shape.Addr64 = f == lib.FLAT && in.Addr != nil && in.Addr.RegCount == 2
+		c.Roles = rolesOf(o, &va)
 		// canonical state: all lanes active, pattern 0
 		lib.Build(st.in, &c.Shape, 0, allLanes, false)
 		oc := mach.Run(in, st.in, st.out)
@@ -290,10 +310,13 @@ func (d *discovery) discoverOp(ctx *wctx, a lib.Arch, f lib.Format, op int) *opI
 			}
 			if notImplemented(oc.Panic) {
 				d.skip("handler: "+short(oc.Panic), ex)
-			} else {
-				d.skip("handler faults: "+short(oc.Panic), ex)
+				continue
 			}
-			continue
+			if !va.Alias {
+				d.skip("handler faults: "+short(oc.Panic), ex)
+				continue
+			}
+			c.AliasPanic = short(oc.Panic) // an aliased form faults where the plain one runs: checked, not skipped
 		}
 		if vi == 0 {
 			if why := crossLaneWhy(o.Name); why != "" {
@@ -302,11 +325,16 @@ func (d *discovery) discoverOp(ctx *wctx, a lib.Arch, f lib.Format, op int) *opI
 			}
 			if f.IsVector() {
 				o.probeVCC(mach, st, c)
+				if o.HasSDst {
+					o.probeSDst(mach, st, c)
+				}
+				c.Roles = rolesOf(o, &va)
 			}
 		}
-		if va.VCCData && (o.ReadsVCC || o.WritesVCC) {
-			continue // VCC is a lane mask for this opcode, it cannot also be uniform data
+		if va.VCCData && o.ReadsVCC {
+			continue // VCC is an implicit lane-mask INPUT of this opcode, it cannot also be uniform data
 		}
+		seen[string(bytesV)] = true
 		o.Cases = append(o.Cases, c)
 	}
 	if len(o.Cases) == 0 {
@@ -314,6 +342,88 @@ func (d *discovery) discoverOp(ctx *wctx, a lib.Arch, f lib.Format, op int) *opI
 	}
 	d.Ops = append(d.Ops, o)
 	return o
+}
+
+// facts collects what the canonical decode tells about the operands of the opcode.
+func facts(f lib.Format, inst *insts.Inst, o *opInfo) lib.OpFacts {
+	cnt := func(op *insts.Operand) int {
+		if op == nil {
+			return 0
+		}
+		if op.OperandType == insts.RegOperand && op.RegCount > 1 {
+			return op.RegCount
+		}
+		return 1
+	}
+	vcnt := func(op *insts.Operand) int {
+		if op == nil || op.OperandType != insts.RegOperand || op.Register == nil || !op.Register.IsVReg() {
+			return 0
+		}
+		return cnt(op)
+	}
+	x := lib.OpFacts{HasSDst: o.HasSDst, MaskOp: o.MaskOp, EvenVGPRTuples: o.Arch == lib.CDNA3,
+		LiteralK: strings.Contains(o.Name, "madak") || strings.Contains(o.Name, "madmk")}
+	switch f {
+	case lib.VOP1, lib.VOP2, lib.VOPC, lib.VOP3:
+		x.DstW = vcnt(inst.Dst)
+		x.SrcW = [3]int{cnt(inst.Src0), cnt(inst.Src1), cnt(inst.Src2)}
+	case lib.DS:
+		x.DstW = vcnt(inst.Dst)
+		x.SrcW = [3]int{cnt(inst.Data), cnt(inst.Data1), 0}
+		x.IsLoad = x.DstW > 0
+	case lib.FLAT:
+		x.IsLoad = strings.Contains(o.Name, "load")
+		if x.IsLoad {
+			x.DstW = vcnt(inst.Dst)
+		} else {
+			x.SrcW[0] = cnt(inst.Data)
+		}
+		x.Addr64 = inst.Addr != nil && inst.Addr.RegCount == 2
+	case lib.SMEM:
+		x.DstW = cnt(inst.Data)
+		x.IsLoad = true
+	default:
+		x.DstW = cnt(inst.Dst)
+		x.SrcW = [3]int{cnt(inst.Src0), cnt(inst.Src1), 0}
+		if strings.Contains(o.Name, "getpc") {
+			x.SrcW[0] = 0 // s_getpc_b64 has no source operand (the decoder fills Src0 anyway)
+		}
+	}
+	return x
+}
+
+// rolesOf derives the input and output roles of the scalar registers for one
+// variant of an opcode. On input: VCC is a lane mask unless the variant reads
+// it as uniform data; s[8:9] (SRC2 mask) and s[20:21] (the default SDST) are
+// lane masks, every other SGPR is uniform data. On output: additionally the
+// SDST pair the encoding names (any SGPR pair or VCC), if the opcode writes
+// it, and VCC if the opcode writes it implicitly (VOPC, VOP2 carry-out) are
+// lane masks produced by the instruction - also when the same register was
+// uniform data on input.
+func rolesOf(o *opInfo, va *lib.Variant) lib.Roles {
+	ro := lib.Roles{VCCIn: !va.VCCData, In: []int{lib.SRegMask, lib.SRegDst}, Out: []int{lib.SRegMask, lib.SRegDst}}
+	ro.VCCOut = ro.VCCIn || o.WritesVCC
+	if o.HasSDst && o.Facts.WritesSDst {
+		switch {
+		case va.SDst == lib.CodeVCC:
+			ro.VCCOut = true
+		case va.SDst != lib.SRegMask && va.SDst != lib.SRegDst:
+			ro.Out = append(ro.Out, va.SDst)
+		}
+	}
+	return ro
+}
+
+// probeSDst finds out whether the handler writes the SDST the encoding names
+// (canonical form, SDST = s[20:21], pre-filled with junk).
+func (o *opInfo) probeSDst(m *lib.Machine, st *stset, c *caseT) {
+	for p := 0; p < lib.NumPatterns; p++ {
+		lib.Build(st.in, &c.Shape, p, allLanes, false)
+		m.Run(c.Inst, st.in, st.out)
+		if lib.S64(st.out, lib.SRegDst) != lib.S64(st.in, lib.SRegDst) {
+			o.Facts.WritesSDst = true
+		}
+	}
 }
 
 func short(s string) string {
@@ -421,7 +531,7 @@ func compareDest(c *caseT, out *lib.State) (name string, val uint64) {
 	if c.Var.SDst == lib.CodeVCC {
 		return "VCC", out.VCC
 	}
-	return fmt.Sprintf("s[%d:%d]", lib.SRegDst, lib.SRegDst+1), lib.S64(out, lib.SRegDst)
+	return fmt.Sprintf("s[%d:%d]", c.Var.SDst, c.Var.SDst+1), lib.S64(out, c.Var.SDst)
 }
 
 func firstLaneDiff(a, b []byte) (reg int, av, bv uint32) {
@@ -516,7 +626,7 @@ func checkEquiv(c *caseT, pi *lib.Perm, out1, out2 *lib.State, oc1, oc2 lib.Outc
 		}
 	}
 	want := out1.VCC
-	if !c.Var.VCCData {
+	if c.Roles.VCCOut {
 		want = pi.Bits(out1.VCC)
 	}
 	if out2.VCC != want {
@@ -526,14 +636,15 @@ func checkEquiv(c *caseT, pi *lib.Perm, out1, out2 *lib.State, oc1, oc2 lib.Outc
 		return "not-equivariant-exec", fmt.Sprintf("EXEC: run(s)=%s, pi.run(s)=%s, run(pi.s)=%s", hx(out1.EXEC), hx(w), hx(out2.EXEC))
 	}
 	for r := 0; r < lib.SFileBytes/4; r++ {
-		if r == lib.SRegMask || r == lib.SRegDst {
+		low, high := c.Roles.IsOut(r)
+		if low {
 			a, b := lib.S64(out1, r), lib.S64(out2, r)
 			if pi.Bits(a) != b {
 				return "not-equivariant-sdst", fmt.Sprintf("lane mask s[%d:%d]: run(s)=%s, pi.run(s)=%s, run(pi.s)=%s", r, r+1, hx(a), hx(pi.Bits(a)), hx(b))
 			}
 			continue
 		}
-		if r == lib.SRegMask+1 || r == lib.SRegDst+1 {
+		if high {
 			continue
 		}
 		if !bytes.Equal(out1.S[4*r:4*r+4], out2.S[4*r:4*r+4]) {
@@ -587,21 +698,25 @@ func checkLocal(c *caseT, p, j int, mod string, outA, outB *lib.State, ocA, ocB 
 			return pre + "-vgpr", fmt.Sprintf("only lane %d's %s changed, but lane %d's v%d went %#08x -> %#08x", j, mod, i, r, x, y)
 		}
 	}
-	if !c.Var.VCCData && clearBit(outA.VCC, j) != clearBit(outB.VCC, j) {
+	if c.Roles.VCCOut && clearBit(outA.VCC, j) != clearBit(outB.VCC, j) {
 		return pre + "-vcc", fmt.Sprintf("only lane %d's %s changed, but VCC went %s -> %s", j, mod, hx(outA.VCC), hx(outB.VCC))
+	}
+	if !c.Roles.VCCOut && outA.VCC != outB.VCC {
+		return pre + "-vcc", fmt.Sprintf("only lane %d's %s changed, but VCC (uniform data in this variant) went %s -> %s", j, mod, hx(outA.VCC), hx(outB.VCC))
 	}
 	if clearBit(outA.EXEC, j) != clearBit(outB.EXEC, j) {
 		return pre + "-exec", fmt.Sprintf("only lane %d's %s changed, but EXEC went %s -> %s", j, mod, hx(outA.EXEC), hx(outB.EXEC))
 	}
 	for r := 0; r < lib.SFileBytes/4; r++ {
-		if r == lib.SRegMask || r == lib.SRegDst {
+		low, high := c.Roles.IsOut(r)
+		if low {
 			a, b := lib.S64(outA, r), lib.S64(outB, r)
 			if clearBit(a, j) != clearBit(b, j) {
 				return pre + "-sdst", fmt.Sprintf("only lane %d's %s changed, but lane mask s[%d:%d] went %s -> %s", j, mod, r, r+1, hx(a), hx(b))
 			}
 			continue
 		}
-		if r == lib.SRegMask+1 || r == lib.SRegDst+1 {
+		if high {
 			continue
 		}
 		if !bytes.Equal(outA.S[4*r:4*r+4], outB.S[4*r:4*r+4]) {
@@ -651,7 +766,7 @@ func applyMod(c *caseT, s, alt *lib.State, p, j int, mod string, poison bool) {
 		copy(s.Lane(j), alt.Lane((j+1)%64))
 		// the address registers stay lane j's own (regions must stay disjoint)
 		lib.SetLaneAddr(s, &c.Shape, p, j, poison && s.EXEC>>uint(j)&1 == 0)
-		if !c.Var.VCCData {
+		if c.Roles.VCCIn {
 			s.VCC ^= 1 << uint(j)
 		}
 		lib.PutS64(s, lib.SRegMask, lib.S64(s, lib.SRegMask)^(1<<uint(j)))
@@ -698,7 +813,7 @@ func runUnit(ctx *wctx, c *caseT, p int, ex lib.NamedExec, poison bool, cfg *tie
 	}
 	for pi := range cfg.perms {
 		np := &cfg.perms[pi]
-		lib.Permute(st.in2, st.in, &np.P, c.Var.VCCData)
+		lib.Permute(st.in2, st.in, &np.P, &c.Roles)
 		oc2 := m.RunInPlace(c.Inst, st.in2)
 		n++
 		if cause, msg := checkEquiv(c, &np.P, st.out, st.in2, oc, oc2); cause != "" {
@@ -865,7 +980,11 @@ func main() {
 		for _, d := range []*discovery{vd, sd} {
 			for _, o := range d.Ops {
 				for _, c := range o.Cases {
-					fmt.Printf("%s\t%s\t%d\t%s\t%s\t%s\n", o.Arch, fmtLabel(o), o.Opcode, o.Name, c.Var.Name, encHex(c))
+					kind := "plain"
+					if c.Var.Alias {
+						kind = "alias"
+					}
+					fmt.Printf("%s\t%s\t%d\t%s\t%s\t%s\t%s\n", o.Arch, fmtLabel(o), o.Opcode, o.Name, c.Var.Name, encHex(c), kind)
 				}
 			}
 		}
@@ -959,6 +1078,17 @@ func main() {
 	r.Cov["vector_opcode_variants_checked"] = map[string]int{"gcn3": gc, "cdna3": cc}
 	r.Cov["scalar_opcodes_checked"] = map[string]int{"gcn3": sg, "cdna3": sc}
 	r.Cov["scalar_opcode_variants_checked"] = nScalarCases
+	aliasCases := map[string]int{}
+	for _, d := range []*discovery{vd, sd} {
+		for _, o := range d.Ops {
+			for _, c := range o.Cases {
+				if c.Var.Alias {
+					aliasCases[fmt.Sprintf("%s/%s", o.Arch, fmtLabel(o))]++
+				}
+			}
+		}
+	}
+	r.Cov["operand_aliasing_variants_checked"] = aliasCases
 	r.Cov["exec_masks"] = len(cfg.execs)
 	r.Cov["exec_masks_scalar"] = len(allExec)
 	r.Cov["lane_permutations"] = len(cfg.perms)
@@ -995,6 +1125,7 @@ func main() {
 		"documented cross-lane instructions (readfirstlane, readlane/writelane, DS swizzle/permute, mbcnt, DPP) are exceptions, listed in the evidence",
 		"equivariance is checked for a generating set of S_64 on every state of the alphabet; since pi.s stays inside the closure of the alphabet only for the thorough tier's full EXEC families, composition to arbitrary permutations is an argument, not an enumeration",
 		"operand forms follow the ISA operand rules (SRC2 of cndmask/addc/subb is an SGPR-pair or VCC lane mask; at most one scalar source next to it)",
+		"scalar registers have separate input and output roles: on input an SGPR pair / VCC is uniform data or a lane mask as the variant says; on output the SDST pair of a VOP3b opcode / VOP3a compare (any SGPR pair or VCC) and the implicit VCC result of VOPC / VOP2 carry opcodes are lane masks produced by the instruction, also when the same register was a uniform source on input (operand aliasing); all sources are read before any result is written",
 	}
 	fmt.Printf("C06: %d vector opcodes (%d opcode x variant cases), %d scalar opcodes; %d units, %d ALU runs, %d nontrivial; %d failure signatures\n",
 		g+cn, nCases, sg+sc, units.Load(), runs.Load(), nontriv.Load(), len(failures))
@@ -1027,7 +1158,7 @@ func samples(ctx *wctx, d *discovery) []any {
 		exec := uint64(0x5555555555555556)
 		lib.Build(st.in, &c.Shape, 0, exec, false)
 		m.Run(c.Inst, st.in, st.out)
-		lib.Permute(st.in2, st.in, &perm.P, false)
+		lib.Permute(st.in2, st.in, &perm.P, &c.Roles)
 		m.Run(c.Inst, st.in2, st.out2)
 		out = append(out, map[string]any{
 			"inst": c.label(), "encoding": encHex(c), "exec": hx(exec), "perm": "swap(0,1)",
@@ -1129,6 +1260,9 @@ func replay(r *harness.Run, ctx *wctx, vd, sd *discovery) {
 		m.Run(c.Inst, st.in, st.out)
 		fmt.Printf("  base run: VCC %s -> %s, EXEC %s -> %s, s[%d:%d] %s -> %s, s[%d:%d](mask src) %s\n", hx(st.in.VCC), hx(st.out.VCC), hx(st.in.EXEC), hx(st.out.EXEC),
 			lib.SRegDst, lib.SRegDst+1, hx(lib.S64(st.in, lib.SRegDst)), hx(lib.S64(st.out, lib.SRegDst)), lib.SRegMask, lib.SRegMask+1, hx(lib.S64(st.in, lib.SRegMask)))
+		fmt.Printf("  uniform scalar source s[%d:%d] %s -> %s; roles: VCC lane mask on input=%v on output=%v; lane-mask SGPR pairs on input %v, on output %v\n",
+			lib.SRegUni, lib.SRegUni+1, hx(lib.S64(st.in, lib.SRegUni)), hx(lib.S64(st.out, lib.SRegUni)), c.Roles.VCCIn, c.Roles.VCCOut, c.Roles.In, c.Roles.Out)
+		vd := c.Var.VDstReg()
 		lanes := map[int]bool{0: true, 1: true, 31: true, 32: true, 63: true, rc.Lane: true}
 		for l := 0; l < 64; l++ {
 			if !lanes[l] {
@@ -1141,7 +1275,7 @@ func replay(r *harness.Run, ctx *wctx, vd, sd *discovery) {
 			}{{"addr v2:3", lib.RegAddr}, {"src0 v10:11", lib.RegSrc0}, {"src1 v20:21", lib.RegSrc1}, {"src2 v30:31", lib.RegSrc2}} {
 				row += fmt.Sprintf(" %s=%08x_%08x", rg.n, lib.V32(st.in, l, rg.r+1), lib.V32(st.in, l, rg.r))
 			}
-			row += fmt.Sprintf(" | dst v40:41 %08x_%08x -> %08x_%08x", lib.V32(st.in, l, lib.RegDst+1), lib.V32(st.in, l, lib.RegDst), lib.V32(st.out, l, lib.RegDst+1), lib.V32(st.out, l, lib.RegDst))
+			row += fmt.Sprintf(" | dst v%d:%d %08x_%08x -> %08x_%08x", vd, vd+1, lib.V32(st.in, l, vd+1), lib.V32(st.in, l, vd), lib.V32(st.out, l, vd+1), lib.V32(st.out, l, vd))
 			fmt.Println(row)
 		}
 	}
